@@ -54,6 +54,7 @@ func init() {
 	vk.Register("C15", "shells", runShellCase)
 	vk.Register("C16", "exh", runSplit)
 	vk.Register("C16", "rand", runSplit)
+	vk.Register("C16", "conc", runConc)
 	vk.Register("C16", "shells", runShellSplitCase)
 }
 
@@ -131,10 +132,50 @@ var genStr = rapid.Custom(func(t *rapid.T) string {
 	return string(rapid.SliceOfN(genByte, 0, 12).Draw(t, "s"))
 })
 
+// runLens are element lengths around the sizes at which code starts to treat
+// a string as "long" (a word, two words, a cache line, a small buffer).
+var runLens = []int{1, 3, 7, 8, 9, 15, 16, 16, 17, 18, 31, 32, 33, 63, 64, 64, 65, 127, 128, 129, 256}
+
+// genRunElem: an element of exactly one of the runLens bytes, made of a short
+// drawn core repeated as often as needed.
+var genRunElem = rapid.Custom(func(t *rapid.T) string {
+	core := rapid.SampledFrom([]string{"a", "ab", "it's ", "$x ", "'", "\\", " ", "\n", "\"q\" ", ""}).Draw(t, "core")
+	if core == "" {
+		core = string(rapid.SliceOfN(genByte, 1, 6).Draw(t, "coreBytes"))
+	}
+	n := rapid.SampledFrom(runLens).Draw(t, "elemLen")
+	return strings.Repeat(core, n/len(core)+1)[:n]
+})
+
+// genRuns: a list made of runs of 2..5 ADJACENT copies of one element (argument
+// lists repeat: "-v -v -v", the same path several times), optionally with
+// other elements between the runs.
+var genRuns = rapid.Custom(func(t *rapid.T) []string {
+	var ss []string
+	for i, n := 0, rapid.IntRange(1, 3).Draw(t, "nRuns"); i < n; i++ {
+		if rapid.IntRange(0, 2).Draw(t, "between") == 0 {
+			ss = append(ss, genStr.Draw(t, "other"))
+		}
+		el := genRunElem.Draw(t, "runElem")
+		for k := rapid.IntRange(2, 5).Draw(t, "copies"); k > 0; k-- {
+			ss = append(ss, el)
+		}
+	}
+	if rapid.IntRange(0, 3).Draw(t, "tail") == 0 {
+		ss = append(ss, genStr.Draw(t, "last"))
+	}
+	return ss
+})
+
 func TestC15Lists(t *testing.T) {
 	h := vk.Start(t, "C15", "lists")
 	vk.Rapid(h, t, func(t *rapid.T) QuoteCase {
-		c := mkQuoteCase(rapid.SliceOfN(genStr, 0, 5).Draw(t, "ss")...)
+		var c QuoteCase
+		if rapid.IntRange(0, 7).Draw(t, "runs") == 0 {
+			c = mkQuoteCase(genRuns.Draw(t, "runList")...)
+		} else {
+			c = mkQuoteCase(rapid.SliceOfN(genStr, 0, 5).Draw(t, "ss")...)
+		}
 		if len(c.SS) > 0 && rapid.IntRange(0, 9).Draw(t, "long") == 0 {
 			base := rapid.SampledFrom([]int{64, 512, 4096, 4096, 8192}).Draw(t, "boundary")
 			c.Pad = max(0, base-rapid.IntRange(0, len(c.SS[0])+4).Draw(t, "before"))
@@ -374,11 +415,108 @@ func TestC16Exhaustive(t *testing.T) {
 	}
 }
 
+// escapable are the bytes an escape-heavy input puts after its backslashes.
+var escapable = []byte("abcdefghijklmnopqrstuvwxyz$`*~ '\t#")
+
+// genEscapes: an input dense with backslash escapes, most of them inside
+// double quotes (where the backslash is retained unless it precedes \, " or a
+// newline); each input escapes ONE drawn byte, so that two inputs tokenized at
+// the same time (the kit runs every 16th case side by side with the three
+// before it) differ in what follows their backslashes.
+var genEscapes = rapid.Custom(func(t *rapid.T) []byte {
+	x := rapid.SampledFrom(escapable).Draw(t, "escaped")
+	units := []string{"\\" + string(x), "\\" + string(x), "\\" + string(x), string(x), "\\\\", "\\\"", "\\\n", " ", "a"}
+	var b []byte
+	for i, n := 0, rapid.IntRange(1, 4).Draw(t, "segments"); i < n; i++ {
+		pat := strings.Join(rapid.SliceOfN(rapid.SampledFrom(units), 1, 4).Draw(t, "pattern"), "")
+		body := strings.Repeat(pat, rapid.IntRange(1, 16).Draw(t, "times"))
+		switch rapid.IntRange(0, 5).Draw(t, "segKind") {
+		case 0, 1, 2:
+			b = append(b, '"')
+			b = append(b, body...)
+			b = append(b, '"')
+		case 3:
+			b = append(b, body...)
+		case 4:
+			b = append(b, '\'')
+			b = append(b, strings.ReplaceAll(body, "'", "q")...)
+			b = append(b, '\'')
+		default:
+			b = append(b, " \n\t"[rapid.IntRange(0, 2).Draw(t, "blank")])
+		}
+		if rapid.Bool().Draw(t, "sep") {
+			b = append(b, ' ')
+		}
+	}
+	return b
+})
+
+// concInput builds the input of goroutine g for leg conc from r: dense with
+// escapes of every kind, the escaped / ordinary bytes taken from a small set of
+// its own so that bytes that wander from one goroutine's tokens into
+// another's are visible.
+func concInput(r *vk.RNG, g int, pure bool) string {
+	own := []byte{byte('a' + g%26), byte('A' + g%26), byte('0' + g%10)}
+	if pure {
+		// one double-quoted word of a few hundred retained escapes
+		return "\"" + strings.Repeat("\\"+string(own[0]), 100+r.Intn(200)) + "\""
+	}
+	var sb strings.Builder
+	for seg, n := 0, 4+r.Intn(12); seg < n; seg++ {
+		x := string(own[r.Intn(len(own))])
+		units := []string{"\\" + x, "\\" + x, x, "\\\\", "\\\"", "\\\n", "\\ ", "\\'", " ", "\t"}
+		var body strings.Builder
+		for k, m := 0, 1+r.Intn(24); k < m; k++ {
+			body.WriteString(units[r.Intn(len(units))])
+		}
+		switch r.Intn(6) {
+		case 0, 1, 2:
+			sb.WriteString("\"" + body.String() + "\"")
+		case 3:
+			sb.WriteString(body.String())
+		case 4:
+			sb.WriteString("'" + strings.ReplaceAll(body.String(), "'", x) + "'")
+		default:
+			sb.WriteString(x + "\n")
+		}
+		if r.Intn(2) == 0 {
+			sb.WriteByte(' ')
+		}
+	}
+	return sb.String()
+}
+
+// TestC16Conc: 8 goroutines tokenize inputs of their own at the same time,
+// for a bounded number of iterations, and each must keep obtaining what the
+// reference tokenizer (and the package, called alone) gives for its input.
+func TestC16Conc(t *testing.T) {
+	h := vk.Start(t, "C16", "conc")
+	r := h.RNG("conc")
+	slot := h.Slot()
+	rounds, iters := h.Pick(12, 300), h.Pick(1500, 3000)
+	for round := 0; round < rounds; round++ {
+		c := ConcCase{Iters: iters}
+		for g := 0; g < 8; g++ {
+			c.Ins = append(c.Ins, toInts(concInput(r, g+8*(round%3), round%2 == 0)))
+		}
+		if msg := vk.One(h, slot, c, runConc); msg != "" {
+			p := h.Fail(c, msg)
+			t.Fatalf("VK-VIOLATION property=C16 leg=conc replay=%s\n%s", p, msg)
+		}
+	}
+	h.Count("tokenizations_while_7_other_goroutines_tokenize", int64(rounds*iters*8))
+}
+
 func TestC16Rand(t *testing.T) {
 	h := vk.Start(t, "C16", "rand")
 	gb := rapid.OneOf(rapid.SampledFrom(classReps2), rapid.SampledFrom(classReps2), rapid.SampledFrom([]byte("\\\\''\"\" \n")), rapid.SampledFrom([]byte("abc$`*~")), rapid.Byte())
 	vk.Rapid(h, t, func(t *rapid.T) SplitCase {
-		b := rapid.SliceOfN(gb, 0, 40).Draw(t, "in")
+		var b []byte
+		if rapid.IntRange(0, 6).Draw(t, "escapes") == 0 {
+			b = genEscapes.Draw(t, "escapeHeavy")
+		} else {
+			b = rapid.SliceOfN(gb, 0, 40).Draw(t, "in")
+		}
 		c := SplitCase{In: make([]int, len(b))}
 		for i, x := range b {
 			c.In[i] = int(x)
